@@ -5,7 +5,11 @@ from concurrent.futures import ThreadPoolExecutor
 from .. import families_eval as fe
 from ..pool import pmap
 
-RULE = ("TLC enumerates rational parameter grids of the truncation families 323+ and 423 (incl. the edges and corners of the "
+RULE = ("spec/Family523.tla states the 62 planes of the 523 family from the symmetry description in exact Q(sqrt5) arithmetic "
+        "(T1_Icosahedral: the set is invariant under a five-fold rotation, the cyclic permutation and the sign changes), computes "
+        "the exact vertex set at the four irrational corners (T1: 30, 12, 20, 32 vertices), on the edges, at rational interior "
+        "points and outside the domain, replayed into Family523.get_shape; "
+        "TLC enumerates rational parameter grids of the truncation families 323+ and 423 (incl. the edges and corners of the "
         "domain and points outside it) in spec/Families.tla and computes the exact vertex set of the half-space intersection by "
         "integer Cramer's rule, the minimal vertex separation and the domain verdict (T1: the corners are the documented solids); "
         "get_shape must return exactly that vertex set (or ValueError only when vertices are closer than 1e-4), ValueError "
@@ -21,7 +25,7 @@ def run(ctx):
     dn = 8 if quick else 24
     def grid(lo, hi):
         return list(range(lo * dn - (2 if quick else 3), hi * dn + (3 if quick else 4)))
-    with ThreadPoolExecutor(max_workers=3) as ex:
+    with ThreadPoolExecutor(max_workers=4) as ex:
         f1 = ex.submit(fe.emit_family, ctx, "323", dn, grid(1, 3)[:: (1 if not quick else 1)], grid(1, 3))
         f2 = ex.submit(fe.emit_family, ctx, "423", dn, grid(1, 2), grid(2, 3))
         f3 = ex.submit(fe.emit_uniform, ctx, 40 if quick else 200)
@@ -29,8 +33,20 @@ def run(ctx):
         # has very short edges there, which must still be resolved
         f4 = ex.submit(fe.emit_family, ctx, "323", 10000, [10000, 10003, 15002, 20001, 29997, 30000], [10000, 10002, 19998, 25000, 29996, 30000])
         f5 = ex.submit(fe.emit_family, ctx, "423", 10000, [10000, 10002, 15003, 19997, 20000], [20000, 20003, 24998, 29996, 30000])
+        pts = fe.POINTS_523["corners"] + (fe.POINTS_523["edges"][::3] + fe.POINTS_523["grid"][5:7] + fe.POINTS_523["outside"][::2]
+                                          if quick else fe.POINTS_523["edges"] + fe.POINTS_523["grid"] + fe.POINTS_523["outside"])
+        f6 = ex.submit(fe.emit_523, ctx, pts)
         recs = f1.result() + f2.result() + f4.result() + f5.result()
         urecs = f3.result()
+        recs523 = f6.result()
+    for r, (mism, st) in zip(recs523, pmap(fe.eval_family523, recs523)):
+        ctx.case(("523", json.dumps(r["a"]), json.dumps(r["c"])), nontrivial=True,
+                 sample={"family": "523", "a": r["a"], "c": r["c"], "in_domain": r["indomain"], "n_exact_vertices": len(r["verts"]),
+                         "exact_vertices_Q(sqrt5)": r["verts"][:3]})
+        ctx.traces += 1
+        ctx.unclear += st.get("unclear", 0)
+        for sig, detail in mism:
+            ctx.violation(sig, detail)
     for r, (mism, st) in zip(recs, pmap(fe.eval_family, recs)):
         ctx.case((r["fam"], json.dumps(r["a"]), json.dumps(r["c"])), nontrivial=True,
                  sample={"family": r["fam"], "a": r["a"], "c": r["c"], "in_domain": r["indomain"], "exact_vertices": r["verts"][:4],
@@ -87,7 +103,7 @@ def run(ctx):
     ctx.extra["factory_histories_replayed"] = factory_eval.run(ctx, PARAMETRIC)
     ctx.exhaustive = False
     return ctx.finish(rule=RULE, assumptions=[
-        "Family523 (golden-ratio normals) is checked only through its documented corners and domain in this tier (see notes)",
+        "Family523 is decided at the listed parameter points of Q(sqrt5) (corners, edge midpoints, centre, rational grid), not on a dense grid: one point costs ~10 s of TLC",
         "metric predicates of the uniform families are float relations on the implementation's output (cos(pi/n) has no exact image)"])
 
 
